@@ -33,7 +33,8 @@ struct Model {
     {
         size_t lin = 0;
         for (size_t k = 0; k < N; ++k) lin = lin * ext[k] + c[k];
-        return static_cast<T>(0.5 + double(j) * 1000 + double(lin) * 3);
+        // not representable in single precision, so a conversion that rounds double storage through float is visible
+        return static_cast<T>(0.1 + double(j) * 1000.3 + double(lin) / 3.0);
     }
 };
 
